@@ -2,7 +2,7 @@
 # setup: build the instrumenter and warm the Go build cache for the simulator (plain and -race). Offline.
 set -uo pipefail
 export GOFLAGS=-mod=mod GOPROXY=off GOSUMDB=off GOTOOLCHAIN=local
-V=/verif
+V=$(cd "$(dirname "$(readlink -f "$0")")/.." && pwd)
 mkdir -p "$V/build" "$V/evidence" "$V/violations"
 ( cd "$V/instr" && go build -o "$V/build/instr" . ) || { echo "setup: building the instrumenter failed" >&2; exit 2; }
 S=$(mktemp -d "${TMPDIR:-/tmp}/verif-setup-XXXXXX") || exit 2
